@@ -106,10 +106,12 @@ def make_system(rng: PlanRng, proc):
         scale = rng.uniform(1.0, 4.0) / max(A.mean(), 1e-9)
         S = sig(S * scale)
         A = np.trapezoid(F[:, None, :] * S[None, :, :], dx=1.0, axis=-1)
-        Kkind = rng.choice(["one", "scalar", "vector"], p=[0.4, 0.2, 0.4])
+        Kkind = rng.choice(["one", "scalar", "vector", "matrix"], p=[0.35, 0.15, 0.35, 0.15])
+        Km = np.diag(rng.uniform(0.6, 1.8, n_rec)) + rng.uniform(0.0, 0.06, (n_rec, n_rec))
         K = {"one": 1.0, "scalar": float(sig(rng.uniform(0.5, 2.0))),
-             "vector": sig(rng.uniform(0.5, 2.0, n_rec))}[Kkind]
-        KA = A * (np.asarray(K).reshape(-1, 1) if Kkind == "vector" else K)
+             "vector": sig(rng.uniform(0.5, 2.0, n_rec)), "matrix": sig(Km)}[Kkind]
+        KA = (np.asarray(K) @ A) if Kkind == "matrix" else \
+            A * (np.asarray(K).reshape(-1, 1) if Kkind == "vector" else K)
         if min(KA.shape) >= 1 and np.linalg.cond(KA) <= 1e3 and KA.max() < 60:
             break
     base_kind = rng.choice(["zero", "scalar", "vector"], p=[0.4, 0.2, 0.4])
@@ -118,7 +120,10 @@ def make_system(rng: PlanRng, proc):
     lb = rng.choice([None, "pos"], p=[0.65, 0.35])
     lbv = None if lb is None else sig(rng.uniform(0.05, 0.4, n_src))
     ubv = sig(rng.uniform(1.0, 10.0, n_src))
-    return {"F": F, "S": S, "K": K, "Kkind": Kkind, "baseline": baseline,
+    # per-receptor importance weights given to the constructor (used when no per-sample
+    # weights are registered)
+    w = sig(rng.uniform(0.5, 2.0, n_rec)) if rng.coin(0.3) else None
+    return {"F": F, "S": S, "K": K, "Kkind": Kkind, "baseline": baseline, "w": w,
             "base_kind": base_kind, "lb": lbv, "ub": ubv, "n_rec": n_rec, "n_src": n_src}
 
 
@@ -126,7 +131,11 @@ def make_universe(rng: PlanRng, sysd, n_u, proc):
     """Distinct, attributable rows: in-gamut, boundary and out-of-gamut mixed."""
     F, S = sysd["F"], sysd["S"]
     A = np.trapezoid(F[:, None, :] * S[None, :, :], dx=1.0, axis=-1)
-    K = np.asarray(sysd["K"], float)
+    Kraw = np.asarray(sysd["K"], float)
+
+    def applyK(v):
+        return (Kraw @ v) if Kraw.ndim == 2 else Kraw * v
+
     base = np.broadcast_to(np.asarray(sysd["baseline"], float), (sysd["n_rec"],))
     lb = np.zeros(sysd["n_src"]) if sysd["lb"] is None else sysd["lb"]
     ub = sysd["ub"]
@@ -141,14 +150,14 @@ def make_universe(rng: PlanRng, sysd, n_u, proc):
         if kind == "boundary":
             m = rng.random(sysd["n_src"]) < 0.5
             x = np.where(m, ub, np.where(rng.random(sysd["n_src"]) < 0.5, lb, x))
-        b = (A @ x + base) * K
+        b = applyK(A @ x + base)
         if kind == "out":
             b = b * rng.uniform(0.2, 2.5, sysd["n_rec"]) + rng.uniform(0.0, 3.0, sysd["n_rec"])
             if rng.coin(0.3):
                 b = b[::-1].copy()
         # stay above the baseline capture: targets below it make dreye raise on *every* batch
         # size (a positivity-constrained parameter), which is C04's business, not C05's
-        b = sig(np.maximum(b, base * K * 1.05 + 0.02))
+        b = sig(np.maximum(b, applyK(base) * 1.05 + 0.02))
         if all(np.max(np.abs(b - r)) >= 0.5 for r in rows):
             rows.append(b)
             kinds.append(kind)
@@ -325,7 +334,8 @@ def solve_grade(events, proc=None):
 
 def build_estimator(plan):
     s = plan["sys"]
-    est = _dreye.ReceptorEstimator(s["F"], domain=1.0, K=s["K"], baseline=s["baseline"])
+    kw = {} if s.get("w") is None else {"w": s["w"]}
+    est = _dreye.ReceptorEstimator(s["F"], domain=1.0, K=s["K"], baseline=s["baseline"], **kw)
     est.register_system(s["S"], lb=s["lb"], ub=s["ub"])
     return est
 
@@ -410,7 +420,8 @@ def execute(plan):
     s = plan["sys"]
     est = build_estimator(plan)
     A = est.A
-    KA = A * (np.asarray(s["K"], float).reshape(-1, 1) if s["Kkind"] == "vector" else s["K"])
+    KA = (np.asarray(s["K"], float) @ A) if s["Kkind"] == "matrix" else \
+        A * (np.asarray(s["K"], float).reshape(-1, 1) if s["Kkind"] == "vector" else s["K"])
     unique_x = (np.linalg.matrix_rank(A) == A.shape[1]) and np.linalg.cond(KA) <= 30
     tauB, tauX = tolerances(plan)
     rngX_ = float(np.max(s["ub"] - (0 if s["lb"] is None else s["lb"])))
